@@ -90,6 +90,15 @@ V4FieldAll == { F4("", FALSE, 0, FALSE), F4("0", TRUE, 0, TRUE), F4("00", TRUE, 
                 F4("255", TRUE, 255, TRUE), F4("256", FALSE, 0, FALSE), F4("260", FALSE, 0, FALSE),
                 F4("0000000000255", TRUE, 255, FALSE), F4("999999999999", FALSE, 0, FALSE), F4("1a", FALSE, 0, FALSE),
                 F4("-1", FALSE, 0, FALSE), F4(" 1", FALSE, 0, FALSE), F4("+1", FALSE, 0, FALSE), F4("1 ", FALSE, 0, FALSE) }
+\* Zero padding is a dimension of its own: the property bounds the VALUE of a field, not its
+\* length, so every field may carry any number of leading zeros, independently of the others.
+RECURSIVE Zeros(_)
+Zeros(n) == IF n = 0 THEN "" ELSE "0" \o Zeros(n - 1)
+V4Values == { <<"0", 0>>, <<"1", 1>>, <<"9", 9>>, <<"25", 25>>, <<"255", 255>>, <<"256", 256>>, <<"300", 300>> }
+\* the field  <pad zeros><decimal text of value>
+Padded(tv, pad) == F4(Zeros(pad) \o tv[1], tv[2] <= 255, IF tv[2] <= 255 THEN tv[2] ELSE 0, pad = 0)
+V4PaddedFields(texts, pads) == { Padded(tv, pad) : tv \in { x \in V4Values : x[1] \in texts }, pad \in pads }
+
 RECURSIVE JoinT(_, _)
 JoinT(fs, sep) == IF Len(fs) = 0 THEN "" ELSE IF Len(fs) = 1 THEN fs[1].t ELSE fs[1].t \o sep \o JoinT(Tail(fs), sep)
 V4Acc(fs) == Len(fs) = 4 /\ \A i \in 1..4 : fs[i].f
